@@ -213,6 +213,44 @@ def judge(w, case):
             open(w.p("bp", "buildpack.toml"), "w").write(VALID_BP_TOML + f"\n[metadata]\n{body}")
     elif kind == "store-absent":
         pass
+    elif kind == "dir-forms":
+        def spell(name, form):
+            real = w.p(name)
+            if form == "plain":
+                return real
+            if form == "symlink":
+                os.symlink(real, w.p("ln-" + name))
+                return w.p("ln-" + name)
+            if form == "relative":
+                return "../" + name
+            return w.p(".", name, "..", name)
+        open(w.p("platform", "env", "VAR"), "w").write("val")
+        open(w.p("layers", "store.toml"), "w").write('[metadata]\nk = "stored"\n')
+        sp = {n: spell(n, case[k]) for n, k in (("layers", "layers"), ("platform", "platform"), ("bp", "buildpack"))}
+        import subprocess
+        e = {k.encode(): v.encode() for k, v in DEFAULT_TARGET_ENV.items()}
+        e[b"CNB_BUILDPACK_DIR"] = sp["bp"].encode()
+        e[b"VB_SCRIPT"] = w.script_path.encode()
+        json.dump({"log": w.log, "dump": w.dump}, open(w.script_path, "w"))
+        args = [sp["platform"], w.p("plan.toml")] if phase == "detect" else [sp["layers"], sp["platform"], w.p("bp_plan.toml")]
+        r = subprocess.run([phase] + args, executable=VB_PATH, env=e, cwd=w.p("app"), stdout=subprocess.PIPE, stderr=subprocess.PIPE)
+        dump = load_dump(w)
+        outcome = f"{kind}:{r.returncode}:{'dump' if dump else 'nodump'}"
+        if r.returncode != 0 or dump is None:
+            bad("valid-input-rejected:dir-forms", f"exit {r.returncode}, stderr {r.stderr[-300:]!r}")
+            return v, outcome
+        c = dump["context"]
+        if c["buildpack_dir"] != sp["bp"]:
+            bad("directory-respelled:buildpack", f"CNB_BUILDPACK_DIR={sp['bp']!r} reached the context as {c['buildpack_dir']!r}")
+        if phase == "build" and c["layers_dir"] != sp["layers"]:
+            bad("directory-respelled:layers", f"layers argument {sp['layers']!r} reached the context as {c['layers_dir']!r}")
+        if c["app_dir"] != w.p("app"):
+            bad("wrong-directories", f"app dir {c['app_dir']!r}")
+        if {k: val for k, val in c["platform_env"]} != {hexs(b"VAR"): hexs(b"val")}:
+            bad("platform-env-missing-variable", f"platform given as {sp['platform']!r}: env in context {c['platform_env']}")
+        if phase == "build" and (c["store"] is None or not tomlgen.same(tomlgen.from_vbjson(c["store"]), ("t", {"k": ("s", "stored")}))):
+            bad("store-altered", f"layers given as {sp['layers']!r}: store in context {c['store']}")
+        return v, outcome
     elif kind == "unreadable":
         # an input file that exists but cannot be represented: must be a reported error
         target = {"store": w.p("layers", "store.toml"), "plan": w.p("bp_plan.toml"), "descriptor": w.p("bp", "buildpack.toml")}[case["where"]]
@@ -366,6 +404,13 @@ def cases(thorough):
     for where in ("store", "plan", "descriptor"):
         for how in ("non-utf8", "directory", "dangling", "malformed"):
             out.append({"kind": "unreadable", "where": where, "how": how})
+    # E. the directories handed over in other spellings: via a symlink, relative to the working
+    # directory (= app dir), with redundant segments; the context must name them as supplied
+    forms = ["plain", "symlink", "relative", "dotted"]
+    for fl, fp, fb in itertools.product(forms, repeat=3):
+        out.append({"kind": "dir-forms", "layers": fl, "platform": fp, "buildpack": fb, "phase": "build"})
+    for fp, fb in itertools.product(forms, repeat=2):
+        out.append({"kind": "dir-forms", "layers": "plain", "platform": fp, "buildpack": fb, "phase": "detect"})
     # D. in-process sequences of programmatic detect/build invocations (two worlds x three content
     # variants x two phases), every sequence up to the length bound
     symbols = [(wi, var, ph) for wi in range(SEQ_WORLDS) for var in range(1, SEQ_VARIANTS + 1) for ph in ("detect", "build")]
@@ -403,13 +448,13 @@ def run(ctx):
             for sig, what in v:
                 res.violation(sig, what, {"case": case})
     nontrivial = sum(1 for c in cs if (c["kind"] == "platform-env" and c["entries"]) or c["kind"] == "toml" or (c["kind"] == "target" and any(x != 0 for x in c["values"]))
-                     or (c["kind"] == "sequence" and len({tuple(x[:2]) for x in c["symbols"]}) > 1))
+                     or c["kind"] == "dir-forms" or (c["kind"] == "sequence" and len({tuple(x[:2]) for x in c["symbols"]}) > 1))
     res.cov("in_process_sequences", sum(1 for c in cs if c["kind"] == "sequence"))
     res.cov("evaluations", len(cs))
     res.cov("distinct_nontrivial", nontrivial)
     res.cov("distinct_outcomes", sorted(outcomes))
     res.cov("determinism_replays", 6)
-    res.cov("rule", "platform env: all sets of <=2 (thorough: <=3 over a reduced kind set) entries with distinct names over 6 names (dots, space, '=', non-ASCII, non-UTF-8) x 9 kinds (4 file contents, directory, symlink to file/dir, dangling, non-UTF-8 content); env/platform dir missing; target: every present/absent x value combination of the five CNB_TARGET_* variables (quick: <=2 non-default) over values {linux, '', 'a b', non-UTF-8}; TOML: every value kind (18 strings, ints incl. extremes, floats incl. inf/nan/-0, bools, 4 datetime kinds, arrays/tables depth 2) in plan entry metadata, store and descriptor metadata; all through the real detect/build runtime; in-process sequences: every sequence of 2..3 (thorough: ..4) programmatic libcnb_runtime_detect/libcnb_runtime_build calls in ONE process over 12 symbols (2 worlds x 3 content variants of descriptor, platform env, plan, store and target variables, one of them with the descriptor removed, x 2 phases), each step compared with the same invocation run alone in a fresh process. non-trivial = case with at least one non-default input")
+    res.cov("rule", "platform env: all sets of <=2 (thorough: <=3 over a reduced kind set) entries with distinct names over 6 names (dots, space, '=', non-ASCII, non-UTF-8) x 9 kinds (4 file contents, directory, symlink to file/dir, dangling, non-UTF-8 content); env/platform dir missing; target: every present/absent x value combination of the five CNB_TARGET_* variables (quick: <=2 non-default) over values {linux, '', 'a b', non-UTF-8}; TOML: every value kind (18 strings, ints incl. extremes, floats incl. inf/nan/-0, bools, 4 datetime kinds, arrays/tables depth 2) in plan entry metadata, store and descriptor metadata; all through the real detect/build runtime; directory spellings: layers / platform / buildpack directory each given plain, through a symlink, relative to the working directory, or with redundant segments (4^3 build + 4^2 detect cases), the context must name them as supplied and still find env, store and descriptor; in-process sequences: every sequence of 2..3 (thorough: ..4) programmatic libcnb_runtime_detect/libcnb_runtime_build calls in ONE process over 12 symbols (2 worlds x 3 content variants of descriptor, platform env, plan, store and target variables, one of them with the descriptor removed, x 2 phases), each step compared with the same invocation run alone in a fresh process. non-trivial = case with at least one non-default input")
     res.cov("exhaustive", True)
     res.sample(cs[3])
     res.sample(cs[len(cs) // 2])
